@@ -745,6 +745,24 @@ class LibMixin:
                 if k in obj.py.data:
                     return [(st, const(obj.py.data[k]))]
                 return [self.raised(st, "KeyError", str(k))]
+            if isinstance(key, VStr):
+                # symbolic key into a constant table: the result is an uninterpreted function
+                # of the key on the hit side (one path, not one per entry)
+                keys = [kk for kk in obj.py.data if isinstance(kk, str)]
+                hit = z3.Or(*[key.t == z3.StringVal(kk) for kk in keys]) if keys else z3.BoolVal(False)
+                out = []
+                for s, h in self.branch(st, hit):
+                    if h:
+                        val = z3.StringVal("")
+                        allstr = all(isinstance(obj.py.data[kk], str) for kk in keys)
+                        if not allstr:
+                            raise Unsupported("symbolic key into a constant table with non-string values")
+                        for kk in keys:
+                            val = z3.If(key.t == z3.StringVal(kk), z3.StringVal(obj.py.data[kk]), val)
+                        out.append((s, VStr(val)))
+                    else:
+                        out.append(self.raised(s, "KeyError", "key"))
+                return out
         raise Unsupported(f"subscript of {type(obj).__name__}")
 
     def seq_index(self, st, seq, key):
